@@ -747,6 +747,17 @@ func runStress(runs int, seed int64) {
 			}
 		}
 		must(h0.AddTriples(ctx, storeops.Batch(u, init)))
+		// every third run: the goroutines work through handles of a graph that another goroutine keeps dropping and
+		// creating again (a handle outlives its graph: what it then reads or writes is not judged, that nothing
+		// panics, races or blocks is)
+		target := g1
+		dropped := run%3 == 0
+		if dropped {
+			target = "?gd"
+			hd, err := st.NewGraph(ctx, target)
+			must(err)
+			must(hd.AddTriples(ctx, storeops.Batch(u, init)))
+		}
 		ng := 2 + rng.Intn(7)
 		nops := 50 + rng.Intn(451)
 		q := randLookup(rng)
@@ -756,8 +767,25 @@ func runStress(runs int, seed int64) {
 		var bad []event
 		var wg sync.WaitGroup
 		var nlook, nclosed, nbql, nbqlerr, nops64 int64
+		if dropped {
+			wg.Add(1)
+			go func() {
+				defer wg.Done()
+				for k := 0; k < 30+nops/10; k++ {
+					_ = st.DeleteGraph(ctx, target)
+					runtime.Gosched()
+					_, _ = st.NewGraph(ctx, target)
+					runtime.Gosched()
+				}
+			}()
+			stats["stress_runs_on_dropped_graph"]++
+		}
 		for i := 0; i < ng; i++ {
-			h, err := st.Graph(ctx, g1)
+			h, err := st.Graph(ctx, target)
+			if err != nil {
+				// dropped at this moment by the goroutine above: take the handle of a new one
+				h, err = st.NewGraph(ctx, fmt.Sprintf("%sx%d", target, i))
+			}
 			must(err)
 			wg.Add(1)
 			go func(i int, h storage.Graph, seed int64) {
